@@ -292,9 +292,16 @@ class BatchRuleRejects(_NoReplay):
     cases = ["no_ctx", "other_ctx"]
 
     def call(self, case):
-        rule = pjax.VmapBatchHandler(_config()).create_batch_rule()
-        params = {} if case == "no_ctx" else {"ctx": "something_else"}
-        return self.real(rule, (value("x"),), (0,), **params)
+        # re-binding is stubbed as in the dataflow contract, so that a rule which goes on instead of raising
+        # returns normally and the clause below is decided
+        orig = pjax.create_sample_primitive
+        pjax.create_sample_primitive = lambda cfg: (lambda *a: ("site-result",))
+        try:
+            rule = pjax.VmapBatchHandler(_config()).create_batch_rule()
+            params = {} if case == "no_ctx" else {"ctx": "something_else"}
+            return self.real(rule, (value("x"),), (0,), **params)
+        finally:
+            pjax.create_sample_primitive = orig
 
     def ensures(self, case, path):
         yield "raises_NotImplementedError", path.outcome == "raise" and isinstance(path.value.exc, NotImplementedError)
